@@ -371,8 +371,8 @@ def validate_function(S, f, fname, rule='R-VAL', need_rtl=True, prop_note=''):
     if len(prs) != 2:
         raise AnalysisBroken('%s: %s does not take two (key, endpoint) pairs' % (rule, fname))
     (_, lk, le), (_, rk, re_) = prs
-    rtl = [p['id'] for p in f.params if p['name'] == 'right_to_left' or
-           (p['type'] == 'bool' and 'right' in p['name'])]
+    bools = [p['id'] for p in f.params if p['type'].replace('const ', '') == 'bool']
+    rtl = [p['id'] for p in f.params if p['name'] == 'right_to_left'] or (bools if len(bools) == 1 else [])
     accesses = {}
     rejects = {}
 
